@@ -5,7 +5,7 @@
 (* the contract operators of the specification.  Failures are printed as   *)
 (* JSON, as in TraceCircuit.                                               *)
 (***************************************************************************)
-EXTENDS Integers, Sequences, FiniteSets, TLC, Json, IOUtils, BigNat, RowOps, TransportOps
+EXTENDS Integers, Sequences, FiniteSets, TLC, Json, IOUtils, BigNat, RowOps, TransportOps, DensityOps
 
 VARIABLES l, fails
 T == ndJsonDeserialize(IOEnv.TRACE)
@@ -47,14 +47,25 @@ T1dFails ==
      (IF Assign1dOK(u, v, s, d, a, Ev.assign) THEN {} ELSE {F("C14", <<"rounded assignment", Ev.assign>>, "t1d-assign")}))
 T1d == Is("T1d") /\ fails' = T1dFails /\ l' = l + 1
 
+(* C16: state of the hierarchical density placement after a public operation *)
+HierFails ==
+    (IF Tiling(Ev.limX, Ev.limY, Ev.regions) THEN {} ELSE {F("C16", <<"bin limits do not tile the placement area", Ev.limX, Ev.limY>>, "tiling")}) \cup
+    (IF CapacityExact(Ev.bins, Ev.limX, Ev.limY, Ev.regions) THEN {} ELSE {F("C16", <<"bin capacity differs from the free area inside the bin", Ev.op>>, "capacity")}) \cup
+    (IF DSum([k \in 1..Len(Ev.bins) |-> Ev.bins[k].cap], Len(Ev.bins)) = Ev.totalCap
+        /\ Ev.totalCap = FreeAreaIn(Ev.regions, AreaOf(Ev.regions).x0, AreaOf(Ev.regions).x1, AreaOf(Ev.regions).y0, AreaOf(Ev.regions).y1)
+     THEN {} ELSE {F("C16", <<"capacities of this view do not add up to the free area", Ev.op>>, "aggregate")}) \cup
+    (IF Partition(Ev.bins, Ev.demands, Ev.cells) THEN {} ELSE {F("C16", <<"cells are not partitioned by the bins", Ev.op, Ev.step>>, "partition")}) \cup
+    (IF CoordInside(Ev.bins, Ev.demands, Ev.cells, Ev.limX, Ev.limY) THEN {} ELSE {F("C16", <<"reported coordinate outside the bin", Ev.op>>, "coord")})
+Hier == Is("Hier") /\ fails' = HierFails /\ l' = l + 1
+
 AlgoBegin == Is("AlgoBegin") /\ fails' = {} /\ l' = l + 1
 \* an execution that died: memory error, abort or hang inside the algorithm
 BadFate == /\ (Is("Abort") \/ Is("Sanitizer") \/ Is("Timeout"))
-           /\ fails' = {F(IF Ev.scen = "t1d" THEN "C14" ELSE IF Ev.scen = "transport" THEN "C13" ELSE "C12",
+           /\ fails' = {F(IF Ev.scen = "t1d" THEN "C14" ELSE IF Ev.scen = "transport" THEN "C13" ELSE IF Ev.scen = "density" THEN "C16" ELSE "C12",
                           <<Ev.e, Ev.stderr>>, Ev.scen \o "-fate")}
            /\ l' = l + 1
 
-Next == RowHist \/ Transport \/ T1d \/ AlgoBegin \/ BadFate
+Next == RowHist \/ Transport \/ T1d \/ Hier \/ AlgoBegin \/ BadFate
 Spec == Init /\ [][Next]_<<l, fails>>
 
 RECURSIVE SeqOfSet(_)
